@@ -838,7 +838,8 @@ func clntGenSeq(r *rng, thorough bool, f func(c *clntCase)) {
 			}
 			return clntOp{what: 2, rq: q, sc: sc, want: rep.want}
 		}
-		connect, dialFails, closeOp := clntOp{what: 0}, clntOp{what: 0, fail: true}, clntOp{what: 1}
+		connect, dialFails, closeOp := clntOp{what: 0}, clntOp{what: 0, fail: 1}, clntOp{what: 1}
+		dialTypedNil := clntOp{what: 0, fail: 2} // the dialer returns a typed nil pointer with its error
 		emit := func(port bool, ops ...clntOp) {
 			i++
 			f(&clntCase{kind: kind, conn: port, flusher: i%2 == 0, hooks: i%3 != 0, ops: ops})
@@ -851,6 +852,19 @@ func clntGenSeq(r *rng, thorough bool, f func(c *clntCase)) {
 			emit(false, fault(8), normal(), connect, normal())
 			emit(false, normal(), closeOp, connect, normal(), closeOp)
 			emit(false, dialFails, normal(), connect, normal())
+			// after a failed dial the client is still not connected, whatever the dialer returned with
+			// the error: Do fails at once, Close and Connect work
+			emit(false, dialTypedNil, normal())
+			emit(false, dialTypedNil, normal(), normal(), connect, normal())
+			emit(false, dialTypedNil, closeOp, normal())
+			emit(false, dialTypedNil, closeOp, connect, normal(), closeOp)
+			emit(false, dialTypedNil, dialTypedNil, fault(8), normal())
+			emit(false, dialFails, dialTypedNil, connect, normal())
+			for w := 0; w < 3; w++ {
+				// ... and a failed re-dial leaves the working connection in place
+				emit(false, connect, normal(), dialTypedNil, normal(), fault(w), closeOp)
+				emit(false, connect, closeOp, dialTypedNil, normal(), connect, normal())
+			}
 			emit(false, closeOp, normal(), connect, normal())
 			for w := 0; w < nFaults; w++ {
 				emit(false, connect, fault(w), normal())
@@ -920,7 +934,7 @@ func clntGenSeq(r *rng, thorough bool, f func(c *clntCase)) {
 			for l := 2 + r.intn(4); l > 0; l-- {
 				switch x := r.intn(10); {
 				case x < 2 && kind != 2:
-					ops = append(ops, clntOp{what: 0, fail: r.intn(5) == 0})
+					ops = append(ops, clntOp{what: 0, fail: []int{0, 0, 0, 1, 2}[r.intn(5)]})
 				case x < 3:
 					ops = append(ops, closeOp)
 				case x < 6:
@@ -938,8 +952,69 @@ func clntGenSeq(r *rng, thorough bool, f func(c *clntCase)) {
 
 var clntAlphabet = []byte{0x00, 0x01, 0x7f, 0x80, 0x83, 0xff}
 
+// clntGenLateException: the accumulated bytes are NOT a consistent frame, but a later read delivers
+// exactly five bytes that are a CRC-valid exception frame on their own
+func clntGenLateException(r *rng, f func(c *clntCase)) {
+	i := 0
+	for kind := 1; kind < 3; kind++ {
+		tail := func() []clntStep {
+			if kind == 1 {
+				return []clntStep{clntEOF(nil)}
+			}
+			return clntTail()
+		}
+		for ctor := 0; ctor < clntCtors[kind]; ctor++ {
+			emit := func(q *clntRq, steps []clntStep) {
+				i++
+				f(&clntCase{kind: kind, conn: true, flusher: i%4 == 0, hooks: i%2 == 0, rq: q,
+					sc: clntScript{steps: append(steps, tail()...)}, ctor: ctor, ctorSet: true})
+			}
+			for _, fc := range fcs {
+				q := clntMkRq(r, fc, 1, 1+r.intn(2))
+				b := q.reply(r).bytes
+				for _, code := range []uint8{1, 2, 4} {
+					ex := q.exception(code).bytes
+					other := clntADU(1, 0, r.u8(), []byte{0x83, 0x02})
+					for k := 1; k <= 3; k++ {
+						for _, e := range [][]byte{ex, other} {
+							// k noise bytes, then the exception frame in a read of its own
+							noise := r.bytes(k)
+							if k == 1 && code == 1 {
+								noise = []byte{0}
+							}
+							emit(q, []clntStep{clntData(noise), clntData(e)})
+							emit(q, []clntStep{clntLate(noise), clntQuiet(), clntLate(e)})
+							// the first k bytes of the valid reply instead of noise
+							emit(q, []clntStep{clntData(b[:k]), clntData(e)})
+							if k > 1 {
+								st := []clntStep{}
+								for _, x := range b[:k] {
+									st = append(st, clntData([]byte{x}))
+								}
+								emit(q, append(st, clntQuiet(), clntData(e)))
+							}
+						}
+					}
+					// the valid reply with its tail overwritten by the exception frame, cut in front of it
+					if len(b) > 5 {
+						m := append(append([]byte(nil), b[:len(b)-5]...), ex...)
+						emit(q, clntCut(m, len(m)-5))
+						emit(q, clntCutAs(m, []int{1, 0}, len(m)-5))
+						if len(m) > 7 {
+							emit(q, clntCut(m, 2, len(m)-5))
+						}
+						// ... and appended to the complete valid reply
+						emit(q, []clntStep{clntData(b), clntData(ex)})
+					}
+				}
+			}
+		}
+	}
+}
+
 func clntGenC12(r *rng, thorough bool, f func(c *clntCase)) {
 	clntGenExtended(r, []int{1, 2}, f)
+	clntGenLateException(r, f)
 	i := 0
 	deliver := func(kind int, q *clntRq, m []byte) {
 		tail := clntTail()
